@@ -50,4 +50,52 @@ theorem len_le_cost (al : Alignment α) :
     rcases p with ⟨_ | a, _ | b⟩ <;>
       simp [srcOf, tgtOf, cost, stepCost, unit] at ih ⊢ <;> (try split) <;> omega
 
+/-- Pair the sequences position by position; the longer one's tail is deleted / inserted. -/
+def zipAl : List α → List α → Alignment α
+  | [], t => t.map (fun b => (none, some b))
+  | a :: s, [] => (a :: s).map (fun a => (some a, none))
+  | a :: s, b :: t => (some a, some b) :: zipAl s t
+
+theorem zipAl_props (s t : List α) :
+    WellFormed (zipAl s t) ∧ srcOf (zipAl s t) = s ∧ tgtOf (zipAl s t) = t ∧
+      cost unit (zipAl s t) ≤ max s.length t.length := by
+  fun_induction zipAl s t with
+  | case1 t =>
+    refine ⟨?_, ?_, ?_, ?_⟩
+    · intro p hp; simp at hp; obtain ⟨a, _, rfl⟩ := hp; simp
+    · induction t with
+      | nil => rfl
+      | cons b t ih => simp [srcOf]
+    · induction t with
+      | nil => rfl
+      | cons b t ih => simpa [tgtOf] using ih
+    · induction t with
+      | nil => simp [cost]
+      | cons b t ih => simp [cost, stepCost, unit] at ih ⊢; omega
+  | case2 a s =>
+    refine ⟨?_, ?_, ?_, ?_⟩
+    · intro p hp; simp at hp; rcases hp with rfl | ⟨x, _, rfl⟩ <;> simp
+    · generalize a :: s = l
+      induction l with
+      | nil => rfl
+      | cons b t ih => simpa [srcOf] using ih
+    · generalize a :: s = l
+      induction l with
+      | nil => rfl
+      | cons b t ih => simp [tgtOf]
+    · generalize a :: s = l
+      induction l with
+      | nil => simp [cost]
+      | cons b t ih => simp [cost, stepCost, unit] at ih ⊢; omega
+  | case3 a s b t ih =>
+    obtain ⟨hw, hs, ht, hc⟩ := ih
+    refine ⟨?_, ?_, ?_, ?_⟩
+    · intro p hp; simp at hp; rcases hp with rfl | hp
+      · simp
+      · exact hw p hp
+    · simpa [srcOf] using hs
+    · simpa [tgtOf] using ht
+    · simp only [cost, List.map_cons, List.sum_cons, List.length_cons] at hc ⊢
+      have : stepCost unit (some a, some b) ≤ 1 := by simp [stepCost, unit]; split <;> omega
+      omega
 end Lev
